@@ -155,8 +155,8 @@ Section Main.
     destruct g; reflexivity.
   Qed.
 
-  Lemma tlookup_atomic a : tlookup (atomic_name a) all = None.
-  Proof. rewrite (tlookup_all all sts Hrep). rewrite (atomic_undeclared sts Hwf). reflexivity. Qed.
+  Lemma tlookup_atomic a : wf_atomic a = true -> tlookup (atomic_name a) all = None.
+  Proof. apply Hrep. Qed.
 
   Lemma member_dims n def m : assoc n sts = Some def -> In m def -> dims_fit (sm_ty m).
   Proof.
@@ -169,7 +169,7 @@ Section Main.
     encEl (S f) (atomic_name a) g = Ok (enc_atomic H a v).
   Proof.
     intros Hw Hr Ht. cbn [encodeElement].
-    rewrite (ends_with_nobr _ (atomic_name_nobr a)), tlookup_atomic. cbn [is_some].
+    rewrite (ends_with_nobr _ (atomic_name_nobr a)), (tlookup_atomic a Hw). cbn [is_some].
     rewrite (abi_elementary_type_atomic a Hw). cbn [bind].
     destruct a as [m|m| | |n| |]; cbn [etc_of e_base e_suffix] in *; unfold abi_encode; cbn [e_base e_m].
     - destruct Hr as (z & -> & ->). cbn [bind]. simpl in Ht. apply andb_prop in Ht as [H1 H2].
@@ -222,13 +222,13 @@ Section Main.
       intros n Hw _ _ f Hf. destruct f as [|f]; [lia|]. cbn [ty_name encodeElement].
       simpl in Hw. apply bmem_In in Hw. destruct (declared_assoc sts n Hw) as (def & Hd).
       destruct (wf_lookup sts Hwf _ _ Hd) as (Hname & _ & _). apply wf_name_nobr in Hname as [Hnb _].
-      rewrite (ends_with_nobr _ Hnb), (tlookup_all all sts Hrep), Hd. cbn [is_some].
+      rewrite (ends_with_nobr _ Hnb), (tlookup_all all sts Hrep _ _ Hd). cbn [is_some].
       rewrite hashStruct_unfold, (encodeType_ok all sts Hrep Hwf n def Hd). cbn [bind].
       rewrite zero_word_ok. reflexivity.
     - (* struct *)
       intros n m def vs Hd Hrm IH Hw _ Ht f Hf. destruct f as [|f]; [lia|]. cbn [ty_name encodeElement].
       destruct (wf_lookup sts Hwf _ _ Hd) as (Hname & _ & Hwfm). apply wf_name_nobr in Hname as [Hnb _].
-      rewrite (ends_with_nobr _ Hnb), (tlookup_all all sts Hrep), Hd. cbn [is_some].
+      rewrite (ends_with_nobr _ Hnb), (tlookup_all all sts Hrep _ _ Hd). cbn [is_some].
       rewrite hashStruct_unfold, (encodeType_ok all sts Hrep Hwf n def Hd). cbn [bind].
       rewrite (well_typed_struct n vs def Hd) in Ht.
       assert (Hdm : Forall (fun sm => dims_fit (sm_ty sm)) def).
@@ -293,7 +293,7 @@ Section Main.
     specialize (Hm _ _ _ Hr Hw I Ht (S (fuel_of g))). cbn [ty_name encodeElement] in Hm.
     destruct (declared_assoc sts n Hn) as (def & Hd).
     destruct (wf_lookup sts Hwf _ _ Hd) as (Hname & _ & _). apply wf_name_nobr in Hname as [Hnb _].
-    rewrite (ends_with_nobr _ Hnb), (tlookup_all all sts Hrep), Hd in Hm. cbn [is_some] in Hm.
+    rewrite (ends_with_nobr _ Hnb), (tlookup_all all sts Hrep _ _ Hd) in Hm. cbn [is_some] in Hm.
     apply Hm. unfold fuel_of. lia.
   Qed.
 End Main.
